@@ -55,6 +55,10 @@ class Base:
         """property predicate on the implementation's observation: None = holds, else reason"""
         if impl_obs.startswith("PANIC") or impl_obs.startswith("ABORT") or impl_obs.startswith("TIMEOUT"):
             return impl_obs[:200]
+        # in-harness cross-checks between two entry points of the implementation that must agree
+        if "RESOURCE!=PARSE_RUNTIME" in impl_obs:
+            return ("FluentResource::try_new disagrees with parse_runtime on the same text (entries, errors relative "
+                    "to source(), or source() itself)")
         return None
 
     def predicate2(self, case, impl_obs, model_obs):
